@@ -55,6 +55,7 @@ static bool bfs_run(bfs_sys *S) {
 	bool ok = true; int maxdepth = 0;
 	size_t cap = S->state_cap ? S->state_cap : 100000;
 	for (size_t s = 0; s < bfs_nnodes && ok; s++) {
+		if ((s & 31) == 0 && vh_time_up()) { VH_COUNT("searches_stopped_by_budget", 1); break; }
 		int base[BFS_MAXD + 2]; int d = bfs_hist((int) s, base);
 		if (d >= BFS_MAXD || (S->depth_cap && d >= S->depth_cap)) { if (!S->depth_cap) VH_COUNT("bfs_depth_cap_hit", 1); continue; }
 		/* find the alphabet of this state */
